@@ -87,11 +87,14 @@ func (b *stateBackend) Store(
 		if err := verifyBlockSuccession(b.database, block); err != nil {
 			return err
 		}
-		if err := verifyOldRootMatchesHead(b.database, stateUpdate); err != nil {
+		// Open the head's state, not whatever state the update's old root names: Update then
+		// verifies the old root against the head state's commitment under the block's version.
+		headRoot, err := headStateRoot(b.database)
+		if err != nil {
 			return err
 		}
 
-		st, err := state.New(stateUpdate.OldRoot, b.stateDB, batch)
+		st, err := state.New(headRoot, b.stateDB, batch)
 		if err != nil {
 			return err
 		}
